@@ -2,9 +2,10 @@
 import os
 import re
 from framework import REPO, LEAN, sh
+from props import c12clock
 
-TIE = ["Nsq.Tie.Guid", "Nsq.Tie.GuidHex"]
-PROPS = ["Nsq.Props.C12", "Nsq.Props.C12Fn"]
+TIE = ["Nsq.Tie.Guid", "Nsq.Tie.GuidHex"] + c12clock.TIE
+PROPS = ["Nsq.Props.C12", "Nsq.Props.C12Fn"] + c12clock.PROPS
 
 
 def run(ctx):
@@ -22,9 +23,14 @@ def run(ctx):
                 "not the all-zero error line; oracles (API only): 16 concurrent publishers on one real "
                 "Topic, back-to-back NewGUID bursts on bare factories (sequence exhausted many times), "
                 "single-goroutine Topic.GenerateID burst")
+    ctx.trusted += c12clock.TRUSTED
+    ctx.assumptions += c12clock.ASSUMPTIONS
+    ctx.rule += "; " + c12clock.RULE
     # 1-2: regenerate, build, audit
     gen_ok, _ = ctx.gen("e1_codec")
     ctx.gen("e1_guidhex")   # translated guid.Hex (kind bytes) for Nsq.Tie.GuidHex
+    for spec in c12clock.SPECS:   # body of Topic.GenerateID, writers / users of the id factory (Tie.GuidLoop)
+        ctx.gen(spec)
     ok, log = ctx.lean_build(TIE + PROPS)
     if not ok:
         ctx.lean_obligation_failed("lake build " + " ".join(TIE + PROPS), log[-1500:])
@@ -125,6 +131,8 @@ def run(ctx):
         if expired_total == 0 and not ctx.violations:
             ctx.notes.append("burst oracle inconclusive: the per-millisecond sequence was never exhausted "
                              "(machine too slow / too loaded for > 4096 NewGUID calls per pseudo-millisecond)")
+    # 5b: clock stepped back (released / blocked) and ids through the real publish paths (audit round 7, B25)
+    c12clock.run(ctx, corr_broken)
     # 6: verdict for a broken tie without a failing input
     if (ctx.broken_ties or corr_broken) and not ctx.violations:
         ctx.broken_without_input(ctx.broken_ties + corr_broken,
